@@ -2,6 +2,8 @@ import SafeC.Proofs.NormSpec
 import SafeC.Proofs.NormRoom
 import SafeC.Proofs.NormCompose
 import SafeC.Proofs.NormNFC2
+import SafeC.Proofs.NormIdemTables
+import SafeC.Proofs.NormNFCRoom
 import SafeC.Proofs.FoldCount
 /-!
 # C17 — "Unicode normalization and case folding follow the Unicode standard"
@@ -22,9 +24,15 @@ What is false of the code as it stands, and therefore `_partial` + `_witness` (e
 * wcsnorm_reorder_s / wcsnorm_compose_s index tables with cells > 0x10FFFF → `reorder_range_witness`, `compose_range_witness`,
   repaired: `reorder_range_fixed`, `compose_range_fixed`
 * iswfc announces 0/1 where towfc_s does / does not fold (748 code points) → `fold_announce_partial`, witnesses in FoldCount.lean
-NFC: `nfc_model` (every input, as is and repaired: EOK ⇒ dest = D117 on the NFD), `nfc_is_uax15_fixed_partial` (repaired code = UAX #15
-NFC over UCD 14.0, all strings of assigned code points ≠ U+037E), `nfc_is_uax15_partial` (code as it is, when the NFD lies in the BMP).
-NFC idempotence is NOT proved (it needs the stability of NFC under re-decomposition); it is checked on the implementation.
+* wcsfc_s decomposes what it folds (U+00C9 ⇒ `e` U+0301), has a final-sigma rule and a 5-cell margin: it does NOT emit what iswfc
+  announces, and announced sum + 1 cells do not suffice   → Props/C17Fold.lean (`wcsfc_model`, `wcsfc_announced_partial`, witnesses)
+NFC: `nfc_model` (every input, as is and repaired: EOK ⇒ dest = D117 on the NFD), `nfc_uax15_partial` (the code as it is NOW —
+`current`, both repairs applied in /repo — = UAX #15 NFC over UCD 14.0, all strings of assigned code points ≠ U+037E; wrapper level:
+`nfc_call_uax15_partial`), `nfc_is_uax15_partial` (the code before the repair, when the NFD lies in the BMP).
+**Normalizing twice = once**: `nfc_idempotent`, `nfd_of_nfc`, `nfc_twice` (model and wrapper level, EVERY string of code points,
+assigned or not), `uax15_nfc_idempotent` (the reference itself, every list) — from `nfc_composite_decomposition` (table fact: the
+full decomposition of a primary composite = that of its first constituent ++ that of the second) and `nfc_step_undone` /
+`nfc_pass_undone` (one composition step / the whole pass is undone by decomposition + canonical reordering).
 -/
 namespace SafeC.Props.C17
 open SafeC.Norm SafeC.Gen
@@ -181,7 +189,8 @@ theorem wcsfc_range_witness : (SafeC.Fold.wcsfcS unrepaired 64 [0x41, 0x110000])
 
 `UAX15.nfd xs` = D68 + D109 over UCD 14.0, `UAX15.nfc xs` = D117 (last starter, not blocked per D115, primary composite per D114 incl.
 the Hangul rules of ch. 3.12) applied to it (Proofs/NormNFC2.lean, NormComposeSpec.lean: `d117`, UnicodeSpec.lean: `primaryComposite`).
-Not proved: NFC (NFC xs) = NFC xs. -/
+`current` (Models/Norm.lean) = `allFixed` since both fix commits are in /repo: the theorems for `current` are the ones about the
+code as it is. -/
 
 /-- `wcsnorm_s(dest, dmax, src, WCSNORM_NFC, &len)`, every input (any cells, any dmax), as it is and repaired: whenever it returns
 EOK, dest = the Canonical Composition (D117) of the model's NFD with the tree's classes and pair map, `*lenp` = its length `< dmax` -/
@@ -189,7 +198,7 @@ theorem nfc_model (fx : Fixes) (dmax : Nat) (src : List Nat) (h0 : ∀ c ∈ src
     (wcsnormS fx 1 dmax src).out = nfcPure fx src ∧ (wcsnormS fx 1 dmax src).len = (nfcPure fx src).length ∧
     (nfcPure fx src).length < dmax ∧ ∀ c ∈ src, c ≤ UniCompos.unicodeMax := wcsnormS_nfc_spec fx dmax src h0 hret
 
-/-- repaired code (`fixes/wcsnorm-composite-full-width.diff`): NFC of the model = UAX #15 NFC over UCD 14.0, every string (any
+/-- repaired code (`fixes/wcsnorm-composite-full-width.diff`, now in /repo: `current = allFixed`): NFC of the model = UAX #15 NFC over UCD 14.0, every string (any
 length) of code points assigned in Unicode 14.0 other than U+037E.  (Rests on: classes equal, every composite a starter, and the
 pair map `_composite_cp`+`isExclusion` = D114 as functions on code points: `pcOf_eq_ucd`.) -/
 theorem nfc_is_uax15_fixed_partial (xs : List Nat) (h : ∀ c ∈ xs, UCD.assigned c = true ∧ c ≠ 0x37E) :
@@ -198,7 +207,114 @@ theorem nfc_is_uax15_fixed_partial (xs : List Nat) (h : ∀ c ∈ xs, UCD.assign
 example : (∀ c ∈ [0x1EAD, 0x10300, 0xAC01], UCD.assigned c = true ∧ c ≠ 0x37E) ∧
     UAX15.nfc [0x1EAD, 0x10300, 0xAC01] = [0x1EAD, 0x10300, 0xAC01] ∧ UAX15.nfc [0x61, 0x10300] = [0x61, 0x10300] := by decide +kernel
 
-/-- code as it is: the same, when the NFD of the string lies in the BMP; the full statement is false: `nfc_cast_witness` -/
+/-- **the headline: NFC of the code as it is (`current`: both repairs are in /repo) = UAX #15 NFC over UCD 14.0**, every string
+(any length) of code points assigned in Unicode 14.0 other than U+037E; the full statement is false: `nfc_slot0_witness` -/
+theorem nfc_uax15_partial (xs : List Nat) (h : ∀ c ∈ xs, UCD.assigned c = true ∧ c ≠ 0x37E) :
+    nfcPure current xs = UAX15.nfc xs := nfcPure_fixed_is_uax15 xs h
+
+/-- … at the level of the call: a successful `wcsnorm_s(dest, dmax, src, WCSNORM_NFC, &len)` on such a string leaves exactly the
+Standard's NFC in dest and its length in `*lenp` -/
+theorem nfc_call_uax15_partial (dmax : Nat) (src : List Nat) (h0 : ∀ c ∈ src, c ≠ 0)
+    (h : ∀ c ∈ src, UCD.assigned c = true ∧ c ≠ 0x37E) (hret : (wcsnormS current 1 dmax src).ret = 0) :
+    (wcsnormS current 1 dmax src).out = UAX15.nfc src ∧ (wcsnormS current 1 dmax src).len = (UAX15.nfc src).length := by
+  obtain ⟨e1, e2, _, _⟩ := nfc_model current dmax src h0 hret
+  rw [e1, e2, nfc_uax15_partial src h]
+  exact ⟨rfl, rfl⟩
+
+/-- U+037E GREEK QUESTION MARK (singleton decomposition to U+003B, lost by the tree's slot-0 encoding): kept by NFC too -/
+theorem nfc_slot0_witness : (wcsnormS current 1 16 [0x37E]).ret = 0 ∧ (wcsnormS current 1 16 [0x37E]).out = [0x37E] ∧
+    UCD.assigned 0x37E = true ∧ UAX15.nfc [0x37E] = [0x3B] := by decide +kernel
+
+example : (∀ c ∈ [0x61, 0x323, 0x10300, 0x1100, 0x1161, 0x11A8], UCD.assigned c = true ∧ c ≠ 0x37E) ∧
+    (wcsnormS current 1 16 [0x61, 0x323, 0x10300, 0x1100, 0x1161, 0x11A8]).ret = 0 ∧
+    UAX15.nfc [0x61, 0x323, 0x10300, 0x1100, 0x1161, 0x11A8] = [0x1EA1, 0x10300, 0xAC01] := by decide +kernel
+
+/-! ### normalizing twice gives the same result as once -/
+
+/-- the table fact behind idempotence, tree and reference: the full canonical decomposition of the primary composite of `<a, b>`
+(D114, incl. Hangul LV and LVT) is the full decomposition of `a` followed by that of `b` — in the tree's tables (`decompose1`)
+and in UCD 14.0 (`fullDecomp`): all 941 table composites kernel-checked, the 11 172 syllables by arithmetic -/
+theorem nfc_composite_decomposition {a b c : Nat} (h : UCD.primaryComposite a b = some c) :
+    decompose1 c = decompose1 a ++ decompose1 b ∧ UCD.fullDecomp 4 c = UCD.fullDecomp 4 a ++ UCD.fullDecomp 4 b :=
+  ⟨primaryComposite_decompose1 h, primaryComposite_fullDecomp h⟩
+
+example : UCD.primaryComposite 0x1E63 0x307 = some 0x1E69 ∧ decompose1 0x1E69 = [0x73, 0x323, 0x307] ∧
+    decompose1 0x1E63 = [0x73, 0x323] ∧ decompose1 0x307 = [0x307] := by decide +kernel
+
+/-- one composition step is undone by decomposition + canonical reordering: `s` the last starter, `pend` the uncomposed marks
+since `s` (classes non-zero, at most `pre`), `c` not blocked from `s` (D115, the C's test), `p` their composite with
+`dec p = dec s ++ [c]`: replacing `s` by `p` and deleting `c` changes nothing after decomposing and reordering (any class
+function, any decomposition function, any text behind) -/
+theorem nfc_step_undone {k : Nat → Nat} {dec : Nat → List Nat} {s c p pre : Nat} {pend : List Nat} (rest : List Nat)
+    (hpend : ∀ b ∈ pend, k b ≠ 0 ∧ k b ≤ pre) (hnb : ¬ ((k c ≠ 0 ∧ pre = k c) ∨ pre > k c)) (hdec : dec p = dec s ++ [c]) :
+    reorderPure k (dec p ++ pend ++ rest) = reorderPure k (dec s ++ pend ++ c :: rest) :=
+  composeStep_undone rest hpend hnb hdec
+
+example : reorderPure kcc (decompose1 0x1EAD ++ [] ++ [0x62]) = reorderPure kcc (decompose1 0x1EA1 ++ [] ++ 0x302 :: [0x62]) ∧
+    reorderPure kcc (decompose1 0x1EAD ++ [] ++ [0x62]) = [0x61, 0x323, 0x302, 0x62] := by decide +kernel
+
+/-- the whole pass: for every canonically ordered string `ys` of fully decomposed characters, decomposing and reordering the
+output of the Canonical Composition Algorithm gives `ys` back — any class function `k`, pair map `pc`, decomposition `dec` with
+`dec (pc a b) = dec a ++ dec b` on a set `S` closed under `pc` -/
+theorem nfc_pass_undone {k : Nat → Nat} {pc : Nat → Nat → Option Nat} {dec : Nat → List Nat} {S : Nat → Prop}
+    (hpc : ∀ a b c, S a → S b → pc a b = some c → S c ∧ dec c = dec a ++ dec b)
+    {ys : List Nat} (hys : ∀ c ∈ ys, S c ∧ dec c = [c]) (hord : CanonOrdered k ys) :
+    reorderPure k ((composePure k pc ys).flatMap dec) = ys := composePure_roundtrip hpc hys hord
+
+/-- **NFD (NFC x) = NFD x**, the code as it is, every string of code points (assigned or not, any length) -/
+theorem nfd_of_nfc (xs : List Nat) (h : ∀ c ∈ xs, c ≤ UniCompos.unicodeMax) : nfdPure (nfcPure current xs) = nfdPure xs :=
+  nfdPure_nfcPure xs h
+
+/-- NFC (NFD x) = NFC x, every string, as is and repaired (the other UAX #15 invariant; immediate from `nfd_idempotent`) -/
+theorem nfc_of_nfd (fx : Fixes) (xs : List Nat) : nfcPure fx (nfdPure xs) = nfcPure fx xs := by
+  unfold nfcPure; rw [nfdPure_idem]
+
+/-- **NFC (NFC x) = NFC x**, the code as it is, every string of code points (assigned or not, U+037E included, any length) -/
+theorem nfc_idempotent (xs : List Nat) (h : ∀ c ∈ xs, c ≤ UniCompos.unicodeMax) :
+    nfcPure current (nfcPure current xs) = nfcPure current xs := nfcPure_idem xs h
+
+example : (∀ c ∈ [0x37E, 0x1E69, 0x1100, 0x1161, 0x11A8, 0x323, 0x10FFFF], c ≤ UniCompos.unicodeMax) ∧
+    nfcPure current [0x37E, 0x73, 0x307, 0x323, 0x1100, 0x1161, 0x11A8, 0x323, 0x10FFFF] = [0x37E, 0x1E69, 0xAC01, 0x323, 0x10FFFF] := by
+  decide +kernel
+
+/-- **two successful `wcsnorm_s` NFC calls: the second leaves the result of the first unchanged** — every source string, any
+two destination sizes -/
+theorem nfc_twice (dmax dmax' : Nat) (src : List Nat) (h0 : ∀ c ∈ src, c ≠ 0)
+    (h1 : (wcsnormS current 1 dmax src).ret = 0) (h2 : (wcsnormS current 1 dmax' (wcsnormS current 1 dmax src).out).ret = 0) :
+    (wcsnormS current 1 dmax' (wcsnormS current 1 dmax src).out).out = (wcsnormS current 1 dmax src).out :=
+  wcsnormS_nfc_twice dmax dmax' src h0 h1 h2
+
+example : (wcsnormS current 1 16 [0x73, 0x307, 0x323, 0x1100, 0x1161]).ret = 0 ∧
+    (wcsnormS current 1 16 [0x73, 0x307, 0x323, 0x1100, 0x1161]).out = [0x1E69, 0xAC00] ∧
+    (wcsnormS current 1 8 [0x1E69, 0xAC00]).ret = 0 := by decide +kernel
+
+/-- sufficient room for NFC: `dmax ≤ RSIZE_MAX_WSTR` and five cells more than the NFD text ⇒ EOK (then `nfc_model` gives dest and
+`*lenp`).  "The result and its terminator fit ⇒ EOK" is false: `nfc_exact_fit_witness` -/
+theorem nfc_succeeds_partial (fx : Fixes) (dmax : Nat) (src : List Nat) (hs : ∀ c ∈ src, c ≠ 0 ∧ c ≤ UniCompos.unicodeMax)
+    (hmax : dmax ≤ RSIZE_MAX_WSTR) (hroom : (nfdPure src).length + 5 ≤ dmax) : (wcsnormS fx 1 dmax src).ret = 0 :=
+  wcsnormS_nfc_succeeds fx dmax src hs hmax hroom
+
+theorem nfc_exact_fit_witness : (wcsnormS current 1 6 [0x41, 0x42, 0x43]).ret = ESNOSPC ∧
+    (wcsnormS current 1 7 [0x41, 0x42, 0x43]).ret = 0 ∧ nfcPure current [0x41, 0x42, 0x43] = [0x41, 0x42, 0x43] := by decide +kernel
+
+/-- with that room both calls succeed, and the second changes nothing: the hypotheses of `nfc_twice` are met by every string of
+non-zero code points and every pair of destinations with five cells more than the NFD text (the second call needs no more room
+than the first: NFD (NFC x) = NFD x) -/
+theorem nfc_twice_succeeds_partial (dmax dmax' : Nat) (src : List Nat) (hs : ∀ c ∈ src, c ≠ 0 ∧ c ≤ UniCompos.unicodeMax)
+    (hmax : dmax ≤ RSIZE_MAX_WSTR) (hroom : (nfdPure src).length + 5 ≤ dmax)
+    (hmax' : dmax' ≤ RSIZE_MAX_WSTR) (hroom' : (nfdPure src).length + 5 ≤ dmax') :
+    (wcsnormS current 1 dmax src).ret = 0 ∧ (wcsnormS current 1 dmax' (wcsnormS current 1 dmax src).out).ret = 0 ∧
+    (wcsnormS current 1 dmax' (wcsnormS current 1 dmax src).out).out = (wcsnormS current 1 dmax src).out :=
+  wcsnormS_nfc_twice_ok dmax dmax' src hs hmax hroom hmax' hroom'
+
+example : (nfdPure [0x1E69, 0xAC01]).length + 5 ≤ 11 ∧ (wcsnormS current 1 11 [0x1E69, 0xAC01]).out = [0x1E69, 0xAC01] := by decide +kernel
+
+/-- the reference itself: UAX #15 NFC over UCD 14.0 is idempotent and NFD (NFC x) = NFD x, every list of cells -/
+theorem uax15_nfc_idempotent (xs : List Nat) : UAX15.nfc (UAX15.nfc xs) = UAX15.nfc xs ∧ UAX15.nfd (UAX15.nfc xs) = UAX15.nfd xs :=
+  ⟨UAX15.nfc_idem xs, UAX15.nfd_nfc xs⟩
+
+/-- the code BEFORE the repair (`unrepaired`): the same, when the NFD of the string lies in the BMP; the full statement is false:
+`nfc_cast_witness` -/
 theorem nfc_is_uax15_partial (xs : List Nat) (h : ∀ c ∈ xs, UCD.assigned c = true ∧ c ≠ 0x37E)
     (hbmp : ∀ d ∈ UAX15.nfd xs, d < 0x10000) : nfcPure unrepaired xs = UAX15.nfc xs := nfcPure_unrepaired_is_uax15_bmp xs h hbmp
 
